@@ -492,6 +492,44 @@ theorem C14_model_meets_spec (sp : Spec) (fin : Bool) (steps : List Step)
 
 /-! ## Non-vacuity: concrete histories that exercise the hypotheses and every clause -/
 
+/-! ## `truncateMessage`: the provider's error text on its way into an event / the `LaunchFailed` message
+
+The capacity-error path publishes an event built from the provider's text BEFORE it deletes the NodeClaim, and the
+generic path puts the text into the `LaunchFailed` message: the function in between must answer for EVERY text
+(in Lean: it is a total function), measuring and cutting in the same unit (bytes). -/
+
+theorem fact_truncate_bytes :
+    Karp.Gen.Lifecycle.truncateGuards = [("msg", "<", Karp.Gen.Lifecycle.truncateLimit)] ∧
+    Karp.Gen.Lifecycle.truncateSlices = [("msg", 0, Karp.Gen.Lifecycle.truncateLimit)] := by decide
+
+theorem C14_truncate_len (ws : List Nat) : truncateMessageBytes ws = truncatedLen (textBytes ws) := by
+  unfold truncateMessageBytes truncateMessage truncatedLen
+  split
+  · simp
+  · rename_i h
+    have := cutBytes_exact ws Karp.Gen.Lifecycle.truncateLimit (by omega)
+    simp only [] at this ⊢
+    simp
+    omega
+
+theorem C14_truncate_bound (ws : List Nat) : truncateMessageBytes ws ≤ Karp.Gen.Lifecycle.truncateLimit + 3 := by
+  rw [C14_truncate_len]; unfold truncatedLen; split <;> omega
+
+theorem C14_truncate_short (ws : List Nat) (h : textBytes ws < Karp.Gen.Lifecycle.truncateLimit) :
+    truncateMessage ws = (ws, 0, false) := by
+  unfold truncateMessage; simp [h]
+
+theorem C14_truncate_prefix (ws : List Nat) : (truncateMessage ws).1 <+: ws := by
+  unfold truncateMessage
+  split
+  · simp
+  · exact cutBytes_prefix ws _
+
+example : truncateMessage (List.replicate 120 3) = (List.replicate 100 3, 0, true) := by decide
+example : truncatedLen 360 = 303 ∧ truncatedLen 300 = 303 ∧ truncatedLen 299 = 299 := by decide
+/-- a cut inside a character: two whole characters kept, one byte of the third left dangling -/
+example : cutBytes 7 [3, 3, 3] = ([3, 3], 1) := by decide
+
 section examples
 
 /-- a NodeClaim with one startup taint, one taint, an extended resource request -/
